@@ -75,6 +75,8 @@ def capture_and_replay(specs, set_capture, set_other):
     symx.FORMAT_HOOK[0] = hook
     try:
         text = snapshot_mod.ScriptSnapshot().generate(None).text
+    except Exception as ex:
+        return captured, None, '', 'capturing the snapshot raised %s: %s' % (type(ex).__name__, ex), None
     finally:
         symx.FORMAT_HOOK[0] = None
     # later, against the same lights in another state
@@ -142,7 +144,7 @@ def worker(args):
         (captured, net2, text, errors, aborted), powers = out
         res.nontrivial += 1
         if errors is not None:
-            what, cons = 'snapshot script does not compile: %s' % errors.strip(), None
+            what, cons = (errors if errors.startswith('capturing') else 'snapshot script does not compile: %s' % errors.strip()), None
         elif aborted:
             what, cons = 'replay aborted: %s' % aborted, None
         else:
@@ -180,7 +182,7 @@ def replay_concrete(specs, vals, powers):
             specs, lambda net: conc_state(net, vals, 'cap', powers),
             lambda net: conc_state(net, vals, 'now', {k: 65535 - v for k, v in powers.items()}))
         if errors is not None:
-            return 'does not compile: %s' % errors.strip(), text
+            return (errors if errors.startswith('capturing') else 'does not compile: %s' % errors.strip()), text
         if aborted:
             return 'aborted: %s' % aborted, text
         for d, c in state_constraints(captured, net2):
